@@ -52,6 +52,7 @@ def run(repo, rep):
     rule_exposed_rewrites(repo, rep)
     rule_empty_reductions(repo, rep)
     rule_report_none_operands(repo, rep)
+    rule_round3(repo, rep)
     rep.clause("C13-h", "the scale derivation never hands the bias / scale packer a shift it asserts against (range guard of quantise_scale == 0 <= shift < 64) [rule shared with C09-a]")
     from . import c09
 
@@ -809,3 +810,64 @@ def rule_report_none_operands(repo, rep):
                     rep.check(none_tested(body, var), "C13-j", f"ethosu/vela/stats_writer.py:{q2}", f"`{norm(body)[:80]}`: operands are tested for None before `{der[0]}`",
                               f"`{der[0]}` is evaluated for every operand of a CPU operator; an absent optional operand (None) gives an AttributeError traceback under --show-cpu-operations")
     rep.floor("C13-j", 1)
+
+
+def rule_round3(repo, rep):
+    """(k) per-core range lookups are guarded; (l) cascade bounds are compared in one index space."""
+    from ..cfg import cfg_of
+
+    rep.clause("C13-k", "a (core, depth) range is read from encoded_ranges only under a membership test of that key (a core beyond the OFM depth has no range); "
+               "the cascade bounds asserted against SchedulerOperation.index are themselves .index values (sub-schedules start at a non-zero global index)")
+    n = 0
+    for mname in ("high_level_command_to_npu_op", "npu_performance", "scheduler", "register_command_stream_generator", "live_range", "high_level_command_stream_generator"):
+        m = repo.mod(mname)
+        for q, fn in m.functions.items():
+            subs = [x for x in ast.walk(fn) if isinstance(x, ast.Subscript) and isinstance(x.ctx, ast.Load) and isinstance(x.value, ast.Attribute) and x.value.attr == "encoded_ranges"]
+            if not subs:
+                continue
+            c = cfg_of(fn)
+            sa = {norm(t_.targets[0]): t_.value for t_ in ast.walk(fn) if isinstance(t_, ast.Assign) and len(t_.targets) == 1 and isinstance(t_.targets[0], ast.Name)}
+            for x in subs:
+                ktxt = norm(x.slice)
+                node = c.node_of(x)
+                ok = False
+                if node is not None:
+                    for t in c.nodes[3:]:
+                        if t.kind != "test" or t.id == node or not c.dominates(t.id, node):
+                            continue
+                        for cmp_ in ast.walk(t.expr):
+                            if isinstance(cmp_, ast.Compare) and len(cmp_.ops) == 1 and isinstance(cmp_.ops[0], ast.In) and isinstance(cmp_.comparators[0], ast.Attribute) \
+                                    and cmp_.comparators[0].attr == "encoded_ranges" and (norm(cmp_.left) == ktxt or (isinstance(x.slice, ast.Name) and x.slice.id in sa and norm(cmp_.left) == norm(sa[x.slice.id]))):
+                                sides = [any(b == node or c.path_avoiding(b, node, [t.id]) for b in c.branch_succ(t.id, lab)) for lab in (True, False)]
+                                if sides == [True, False]:
+                                    ok = True
+                n += 1
+                rep.check(ok, "C13-k", f"ethosu/vela/{mname}.py:{q}", f"`{str(norm(x))[:70]}` is read under `{ktxt} in ....encoded_ranges`",
+                          "unguarded lookup: on a two-core target an operator with fewer output channels than cores has no range for the second core (KeyError traceback)")
+    if n < 4:
+        raise AnalysisError("encoded_ranges lookups not found")
+    cb = repo.mod("cascade_builder")
+    bc = cb.func("CascadeBuilder.build_cascades")
+    asr = [a for a in ast.walk(bc) if isinstance(a, ast.Assert) and ".index" in str(norm(a.test)) and isinstance(a.test, ast.Compare)]
+    if not asr:
+        raise AnalysisError("build_cascades: index assertion not found")
+    alldefs = {}
+    for s_ in ast.walk(bc):
+        if isinstance(s_, ast.Assign):
+            for t_ in s_.targets:
+                if isinstance(t_, ast.Name):
+                    alldefs.setdefault(t_.id, []).append(s_.value)
+    derived = set()
+    for _ in range(4):
+        for nm, ds in alldefs.items():
+            if nm not in derived and ds and all((isinstance(d, ast.Attribute) and d.attr == "index") or
+                                                 (isinstance(d, ast.BinOp) and isinstance(d.op, (ast.Add, ast.Sub)) and any(isinstance(x, ast.Name) and x.id in derived for x in ast.walk(d))) for d in ds):
+                derived.add(nm)
+    for a in asr:
+        for operand in [a.test.left] + a.test.comparators:
+            if isinstance(operand, ast.Name):
+                defs = alldefs.get(operand.id, [])
+                ok = operand.id in derived
+                rep.check(ok, "C13-k", "ethosu/vela/cascade_builder.py:CascadeBuilder.build_cascades", f"`{operand.id}` (compared with .index in `{str(norm(a.test))[:60]}`) is always assigned from an .index attribute",
+                          f"assigned from {[str(norm(d)) for d in defs]}: a position in the builder's own op list is compared with global schedule indices; for a sub-schedule that does not start at op 0 the assertion fails")
+    rep.floor("C13-k", 6)
